@@ -290,7 +290,7 @@ def run_ecdsa(desc):
     n = eg.ref(cid).n if cid in eg.CURVE_NAMES else (1 << [163, 233, 256, 571][spec['k'] % 4])
     for j in range(spec['nsigs']):
       h = eg.random_hash(mat, [0, 1, 20, 32, 48, 64, 33][(spec['hsel'] + j) % 7])
-      mode = (spec['rs'] + j) % 6
+      mode = (spec['rs'] + j) % 6 if spec['rs'] else 0   # rs == 0: every signature of the issuer is genuine
       if mode == 0 and d is not None and kind == 'valid':
         rs = eg.sign(cid, d, 1 + mat.below(n - 1), h) or (1, 1)
       else:
@@ -321,7 +321,8 @@ def strat_ecdsa(tier, targets=None):
   issuer = st.fixed_dictionaries({
       'curve': st.one_of(st.integers(0, 8), st.integers(0, len(CURVE_IDS) - 1)),
       'kind': st.one_of(st.just(0), st.integers(0, len(EC_KINDS) - 1)), 'k': st.integers(0, 1000),
-      'nsigs': st.integers(1, 4), 'hsel': st.integers(0, 6), 'rs': st.integers(0, 5),
+      'nsigs': st.one_of(st.integers(1, 4), st.sampled_from([9, 12, 16, 24, 30])),
+      'hsel': st.integers(0, 6), 'rs': st.sampled_from([0, 0, 0, 1, 2, 3, 4, 5]),
       'pad': st.sampled_from([0, 0, 2])})
   return st.fixed_dictionaries({
       'm': material, 'issuers': st.lists(issuer, min_size=0, max_size=3),
